@@ -3,7 +3,7 @@ cache kind is configured per case. Type names: 'Ht' is a string prefix of 'HtX' 
 (BaseCache.load_metadata matches keys with startswith).
 
 run() of task k in the run with stamp g (Lab context {'g': g}) returns 1000*k + g + sum(dependency
-results); it raises if `fail` is set, and lets the TaskError of a failed dependency propagate."""
+results); it raises if `fail` is set or its k is listed in the Lab context's 'fail', and lets the TaskError of a failed dependency propagate."""
 import dataclasses
 import os
 
@@ -41,7 +41,9 @@ class RecJson(JsonCache):
 
 def _run(self):
     log_line(f'X {self.k}')
-    if self.fail:
+    if self.fail or self.k in (self.context or {}).get('fail', ()):
+        # failing is a property of the task (fail=True) or of THIS run: the Lab context is not part
+        # of the cache key, so the same task can succeed in one run and fail in the next
         raise ValueError(f'task {self.k} fails')
     g = (self.context or {}).get('g', 0)
     return 1000 * self.k + g + sum(d.result for d in self.deps)
